@@ -273,7 +273,9 @@ def main(argv=None):
     log('KNOWN-FINDING: property=%s %s [%s; e.g. case %s/%s]' % (prop, e['what'], e['id'], r['case'], r['query']))
   rdir = os.path.join(ROOT, 'replays', prop)
   vio_paths = []
-  for r in violations:
+  if len(violations) > 8:
+    log('(%d violating queries; reporting the first 8)' % len(violations))
+  for r in violations[:8]:
     os.makedirs(rdir, exist_ok=True)
     blob = json.dumps(r, sort_keys=True, default=str)
     h = hashlib.sha1(blob.encode()).hexdigest()[:12]
@@ -284,6 +286,8 @@ def main(argv=None):
     log('VIOLATION property=%s replay=%s' % (prop, path))
     log('  case=%s query=%s sig=%s' % (r['case'], r['query'], json.dumps(r.get('sig'), default=str)))
     log('  replay: %s' % json.dumps(r.get('replay_result'), default=str)[:400])
+    rc = 1
+  if violations:
     rc = 1
 
   decided = [r for r in all_results if r['verdict'] in ('sat', 'unsat')]
